@@ -1,4 +1,5 @@
-import TinsModel.Crypto.Wpa2
+import TinsModel.Crypto.Handshake
+import TinsModel.Crypto.Hash
 import TinsModel.Crypto.Aes
 import TinsModel.Crypto.Spec
 import Driver.Util
@@ -12,20 +13,31 @@ def innerParser : InnerParser := fun eth rest =>
   if eth == 0x0806 then
     if rest.length < 28 then .error .malformedPacket
     else .ok (.pdu 29 (if rest.length > 28 then some (rest.drop 28) else none))
-  else if [0x0800, 0x86dd, 0x8863, 0x8864, 0x888e, 0x8100, 0x88a8, 0x9100, 0x8847].contains eth then
+  else if eth == 0x888e then
+    match parseEapol rest with
+    | .ok (some e) => .ok (.eapol e)
+    | .ok none => .ok (if rest.getD 4 0 == 1 then .pdu 36 none else .none)
+    | .error e => .error e
+  else if [0x0800, 0x86dd, 0x8863, 0x8864, 0x8100, 0x88a8, 0x9100, 0x8847].contains eth then
     .ok (.pdu 9999 none)
   else .ok (.raw rest)
 
 def aes : Bytes → BlockFn := fun key => Aes.encryptBlockW (Aes.expandKey key)
 
+def prf : Bytes → Bytes → Bytes := Hash.hmacSha1
+def micf : Bool → Bytes → Bytes → Bytes := fun ccmp => if ccmp then Hash.hmacSha1 else Hash.hmacMd5
+
 structure MState where
   wep : WepPasswords := []
-  keys : KeyTable := []
+  wpa : Wpa2State := {}
+  /-- the stand-alone `RSNHandshakeCapturer` of the harness -/
+  cap : Capturer := {}
 
 def showSnapInner : SnapInner → String
   | .none => "none"
   | .raw b => "raw:" ++ toHex b
   | .pdu t _ => s!"pdu{t}"
+  | .eapol _ => "pdu37"
 
 def showInner : Inner → String
   | .none => "none"
@@ -48,6 +60,20 @@ def parseAddr (s : String) : Option Bytes :=
   | some b => if b.length == 6 then some b else none
   | none => none
 
+def showEvents (ev : List Event) : String :=
+  if ev.isEmpty then "-" else
+  joinWith "," (ev.map fun
+    | .apFound ssid b => s!"ap:{toHex ssid}:{toHex b}"
+    | .handshake ssid b c => s!"hs:{toHex ssid}:{toHex b}:{toHex c}")
+
+def showHandshakes (hs : List Handshake) : String :=
+  if hs.isEmpty then "-" else
+  joinWith "," (hs.map fun h =>
+    s!"{toHex h.a1}{toHex h.a2}/{h.msgs.length}" ++ String.join (h.msgs.map fun e => s!"/{(fnv e.serialize).toNat}"))
+
+def kvOf (ws : List String) (key : String) : Option String :=
+  ws.findSome? (fun w => if w.startsWith (key ++ "=") then some ((w.drop (key.length + 1)).toString) else none)
+
 def step (st : MState) (line : String) : MState × String :=
   match words line with
   | "case" :: _ => ({}, "case")
@@ -63,12 +89,24 @@ def step (st : MState) (line : String) : MState × String :=
     match parseHex k, parseHex b with
     | some k, some b => (st, "aes " ++ toHex (aes k b))
     | _, _ => (st, "bad-op")
+  | "keys" :: _ => (st, "keys=" ++ showKeys st.wpa.keys)
   | "ptk" :: a :: b :: k :: c :: _ =>
     match parseAddr a, parseAddr b, parseHex k with
     | some a, some b, some k =>
-      if k.length != 80 then (st, "throw invalid_handshake keys=" ++ showKeys st.keys) else
-      let st' := { st with keys := addDecryptionKeys st.keys a b ⟨k, c == "1"⟩ }
-      (st', "ok keys=" ++ showKeys st'.keys)
+      if k.length != 80 then (st, "throw invalid_handshake keys=" ++ showKeys st.wpa.keys) else
+      let st' := { st with wpa := { st.wpa with keys := addDecryptionKeys st.wpa.keys a b ⟨k, c == "1"⟩ } }
+      (st', "ok keys=" ++ showKeys st'.wpa.keys)
+    | _, _, _ => (st, "bad-op")
+  | "apdata" :: _psk :: ssid :: rest =>
+    match parseHex ssid, (kvOf rest "pmk").bind parseHex with
+    | some ssid, some pmk => ({ st with wpa := st.wpa.addApData ssid pmk }, "ok ev=-")
+    | _, _ => (st, "bad-op")
+  | "apaddr" :: _psk :: ssid :: a :: rest =>
+    match parseHex ssid, parseAddr a, (kvOf rest "pmk").bind parseHex with
+    | some ssid, some a, some pmk =>
+      match (st.wpa.addApData ssid pmk).addAccessPoint ssid a with
+      | some (w, ev) => ({ st with wpa := w }, "ok ev=" ++ showEvents ev)
+      | none => (st, "throw runtime_error")
     | _, _, _ => (st, "bad-op")
   | op :: f :: _ =>
     if op != "wep" && op != "wpa" then (st, "bad-op") else
@@ -78,18 +116,36 @@ def step (st : MState) (line : String) : MState × String :=
       match parseFrame innerParser f with
       | .throw e => (st, "parse-throw " ++ e.name)
       | .fault s i l => (st, s!"FAULT model {s} {i} {l}")
-      | .ok .notData => (st, "r=0 nodata" ++ (if op == "wpa" then s!" cap=0 hs=- ev=- nk={st.keys.length}" else ""))
-      | .ok (.data fr) =>
+      | .ok parsed =>
         if op == "wep" then
-          match wepDecrypt innerParser st.wep fr with
-          | .ok (r, fr') => (st, showFrame (if r then "1" else "0") fr')
-          | .throw e => (st, showFrame ("throw:" ++ e.name) fr)
-          | .fault s i l => (st, s!"FAULT model {s} {i} {l}")
+          match parsed with
+          | .data fr =>
+            match wepDecrypt innerParser st.wep fr with
+            | .ok (r, fr') => (st, showFrame (if r then "1" else "0") fr')
+            | .throw e => (st, showFrame ("throw:" ++ e.name) fr)
+            | .fault s i l => (st, s!"FAULT model {s} {i} {l}")
+          | _ => (st, "r=0 nodata")
         else
-          let tail := s!" cap=0 hs=- ev=- nk={st.keys.length}"
-          match wpa2DecryptData innerParser aes st.keys fr with
-          | .ok (r, fr') => (st, showFrame (if r then "1" else "0") fr' ++ tail)
-          | .throw e => (st, showFrame ("throw:" ++ e.name) fr ++ tail)
+          -- the stand-alone capturer of the harness sees the frame first
+          let (cap2, c2) : Capturer × Bool := match parsed with
+            | .data fr => match fr.inner.findEapol with
+              | some e => st.cap.process fr.hdr e
+              | none => (st.cap, false)
+            | _ => (st.cap, false)
+          let hsTxt := s!" cap={if c2 then 1 else 0} hs={showHandshakes cap2.completed}"
+          let st := { st with cap := { cap2 with completed := [] } }
+          match wpa2Decrypt innerParser aes prf micf st.wpa parsed with
+          | .ok (w, r, p', ev) =>
+            let st' := { st with wpa := w }
+            let tail := hsTxt ++ s!" ev={showEvents ev} nk={w.keys.length}"
+            match p' with
+            | .data fr' => (st', showFrame (if r then "1" else "0") fr' ++ tail)
+            | _ => (st', s!"r={if r then 1 else 0} nodata" ++ tail)
+          | .throw e =>
+            let tail := hsTxt ++ s!" ev=- nk={st.wpa.keys.length}"
+            match parsed with
+            | .data fr => (st, showFrame ("throw:" ++ e.name) fr ++ tail)
+            | _ => (st, s!"r=throw:{e.name} nodata" ++ tail)
           | .fault s i l => (st, s!"FAULT model {s} {i} {l}")
   | _ => (st, "bad-op")
 
@@ -231,6 +287,8 @@ def specStep (st : OState) (line : String) : OState × String :=
       | (a, []) => (a, [])
     match opw with
     | "case" :: _ => ({}, "ok")
+    | "apdata" :: _ => (st, "ok")
+    | "apaddr" :: _ => (st, "ok")
     | ["weppw", a, k] =>
       match parseAddr a, parseHex k with
       | some a, some k => ({ st with wep := insertKV st.wep a k }, "ok")
@@ -245,10 +303,30 @@ def specStep (st : OState) (line : String) : OState × String :=
         if k.length != 80 then (st, if out.startsWith "throw invalid_handshake" then "ok" else "violates ptk-size-not-rejected")
         else ({ st with keys := insertKV st.keys (sortPair a b) (k, c == "1") }, "ok")
       | _, _, _ => (st, "unspecified")
+    | ["keys"] =>
+      match ann with
+      | ["expect", entry] =>
+        match kv (words out) "keys" with
+        | some ks => (st, if (ks.splitOn ",").contains entry then "ok" else "violates learned-key-missing-or-wrong")
+        | none => (st, "violates unparsable-output")
+      | _ => (st, "ok")
     | [op, f] =>
       if op != "wep" && op != "wpa" then (st, "unspecified") else
       match parseHex f with
-      | some frame => (st, judge st op frame ann out)
+      | some frame =>
+        match ann with
+        | ["learn", a, b, k, c] =>
+          -- a valid handshake history for a known network ends here: the pair's keys must now be known
+          match parseAddr a, parseAddr b, parseHex k with
+          | some a, some b, some k =>
+            let st' := { st with keys := insertKV st.keys (sortPair a b) (k, c == "1") }
+            let ev := (kv (words out) "ev").getD ""
+            (st', if (ev.splitOn ",").any (·.startsWith "hs:") then "ok" else "violates keys-not-learned")
+          | _, _, _ => (st, "violates bad-annotation")
+        | ["nolearn"] =>
+          let ev := (kv (words out) "ev").getD ""
+          (st, if (ev.splitOn ",").any (·.startsWith "hs:") then "violates keys-learned-with-wrong-psk" else "ok")
+        | _ => (st, judge st op frame ann out)
       | none => (st, "unspecified")
     | _ => (st, "unspecified")
   | _ => (st, "bad-line")
